@@ -412,7 +412,9 @@ class WSGITask(Task):
 
             self.status = status
 
-            # Prepare the headers for output
+            # Prepare the headers for output.  Take the pairs out of the
+            # application's object once: what is checked below is what is sent
+            headers = [(k, v) for k, v in headers]
             for k, v in headers:
                 if not isinstance(k, str):
                     raise AssertionError(
@@ -441,7 +443,7 @@ class WSGITask(Task):
                         "a WSGI application (see PEP 3333)" % k
                     )
 
-            self.response_headers.extend([(k, v) for k, v in headers])
+            self.response_headers.extend(headers)
 
             # Return a method used to write the response data.
             return self.write
